@@ -156,7 +156,9 @@ func (f *formatter) fmtNode(n *yaml.Node, path string, schema *openapi.ResourceS
 
 	// sort the order of mapping fields
 	if n.Kind == yaml.MappingNode {
-		sort.Sort(sortedMapContents(*n))
+		// stable: fields with equal names (duplicate keys) keep their relative order, so that
+		// formatting a formatted document changes nothing
+		sort.Stable(sortedMapContents(*n))
 	}
 
 	// sort the order of sequence elements if it is whitelisted
@@ -164,7 +166,7 @@ func (f *formatter) fmtNode(n *yaml.Node, path string, schema *openapi.ResourceS
 		if yaml.WhitelistedListSortKinds.Has(f.kind) &&
 			yaml.WhitelistedListSortApis.Has(f.apiVersion) {
 			if sortField, found := yaml.WhitelistedListSortFields[path]; found {
-				sort.Sort(sortedSeqContents{Node: *n, sortField: sortField})
+				sort.Stable(sortedSeqContents{Node: *n, sortField: sortField})
 			}
 		}
 	}
